@@ -126,34 +126,47 @@ func (h *harness) quiesce(d time.Duration) bool {
 	deadline := time.Now().Add(d)
 	for time.Now().Before(deadline) {
 		l := h.cl.Leader()
-		if l != nil {
-			// cheap test first: raft must have handed every committed entry to the FSMs
-			ci0, _ := l.Store.CommitIndex()
-			behind := false
-			for _, n := range h.nodes {
-				if n.Store.AppliedIndex() < ci0 {
-					behind = true
-				}
-			}
-			if behind {
-				time.Sleep(2 * time.Millisecond)
-				continue
-			}
-			li, ok := fsmIndex(l)
-			ci, _ := l.Store.CommitIndex()
-			all := ok
-			for _, n := range h.nodes {
-				fi, ok := fsmIndex(n)
-				nci, _ := n.Store.CommitIndex()
-				if !ok || fi < li || nci < ci {
-					all = false
-				}
-			}
-			if all {
-				return true
+		if l == nil {
+			time.Sleep(20 * time.Millisecond)
+			continue
+		}
+		// cheap test first: raft must have handed every committed entry to the FSMs
+		ci, _ := l.Store.CommitIndex()
+		behind := false
+		for _, n := range h.nodes {
+			nci, _ := n.Store.CommitIndex()
+			if nci < ci || n.Store.AppliedIndex() < ci {
+				behind = true
 			}
 		}
-		time.Sleep(5 * time.Millisecond)
+		if behind {
+			time.Sleep(2 * time.Millisecond)
+			continue
+		}
+		li, ok := fsmIndex(l)
+		if !ok {
+			time.Sleep(5 * time.Millisecond)
+			continue
+		}
+		for _, n := range h.nodes {
+			if n == l {
+				continue
+			}
+			for {
+				fi, ok := fsmIndex(n)
+				if ok && fi >= li {
+					break
+				}
+				if time.Now().After(deadline) {
+					return false
+				}
+				time.Sleep(3 * time.Millisecond)
+			}
+		}
+		// nothing new arrived meanwhile
+		if ci2, _ := l.Store.CommitIndex(); ci2 == ci && h.cl.Leader() == l {
+			return true
+		}
 	}
 	return false
 }
@@ -465,6 +478,29 @@ func (h *harness) run(t *Text, c Combo) ReqResult {
 	return res
 }
 
+// compact keeps the WAL files small (the harness cluster takes no automatic
+// snapshots, so accepted writes only ever append): an explicit snapshot on every
+// node, between two texts, then a fresh baseline.
+func (h *harness) compact() error {
+	big := false
+	for _, n := range h.nodes {
+		if h.cur[n.ID].WALSize > 300<<10 {
+			big = true
+		}
+	}
+	if !big {
+		return nil
+	}
+	for _, n := range h.nodes {
+		if err := n.Store.Snapshot(0); err != nil {
+			h.counts["harness_snapshot_errors"]++
+			fmt.Fprintf(os.Stderr, "C17 harness snapshot on %s: %v\n", n.ID, err)
+		}
+	}
+	h.counts["harness_snapshots"]++
+	return h.rebaseline()
+}
+
 // topUp keeps enough rows in t1 for UPDATE/DELETE texts to stay observable.
 func (h *harness) topUp(next *int) error {
 	d := h.dumps["n1"]
@@ -533,7 +569,13 @@ func worker(args []string) {
 	for i := range texts {
 		tr := &TextResult{Text: texts[i]}
 		h.counts = map[string]int64{}
+		if err := h.compact(); err != nil {
+			tr.Aborted = "compact: " + err.Error()
+		}
 		for _, c := range combos[i] {
+			if tr.Aborted != "" {
+				break
+			}
 			if err := h.topUp(&nextSeed); err != nil {
 				tr.Aborted = "top-up: " + err.Error()
 				break
